@@ -154,11 +154,14 @@ static const char *HK[10] = {"hash", "hasha", "xof", "xofa", "xof<16>", "xof<32>
 static const char *UP[4] = {"ptr,len", "const char*", "byte_array", "std::string"};
 
 static rc::Gen<KV> gen_hash() {
-    auto text = rc::gen::container<std::string>(rc::gen::map(inRangeFull(1, 256), [](int v) { return (char)v; }));  // no NUL: usable as a C string
+    // all byte values, NUL made frequent; the const char* overloads get the same text with NULs replaced (see below)
+    auto text = rc::gen::container<std::string>(rc::gen::weightedOneOf<char>({{1, rc::gen::just<char>(0)}, {9, rc::gen::map(inRangeFull(0, 256), [](int v) { return (char)v; })}}));
     return rc::gen::map(rc::gen::tuple(inRangeFull(0, 10), inRangeFull(0, 4), text, text, genLen(200), rc::gen::arbitrary<uint16_t>(), genBytes(40)),
                         [](std::tuple<int, int, std::string, std::string, size_t, uint16_t, Bytes> t) {
         KV c; c["kind"] = num(std::get<0>(t)); c["upd"] = num(std::get<1>(t));
-        c["d1"] = hex((const uint8_t *)std::get<2>(t).data(), std::get<2>(t).size()); c["d2"] = hex((const uint8_t *)std::get<3>(t).data(), std::get<3>(t).size());
+        std::string t1 = std::get<2>(t), t2 = std::get<3>(t);
+        if (std::get<1>(t) == 1) { for (auto &ch : t1) if (!ch) ch = 1; for (auto &ch : t2) if (!ch) ch = 1; }   // a C string cannot carry NUL
+        c["d1"] = hex((const uint8_t *)t1.data(), t1.size()); c["d2"] = hex((const uint8_t *)t2.data(), t2.size());
         c["outlen"] = num(std::get<4>(t)); c["flags"] = num(std::get<5>(t)); c["custom"] = hex(std::get<6>(t));
         return c; });
 }
@@ -170,6 +173,7 @@ static bool classify_hash(const KV &c, std::vector<std::string> &tags) {
     if (fl & 2) tags.push_back("assign");
     if (fl & 4) tags.push_back("reset");
     if (fl & 8) tags.push_back("named-ctor");
+    { Bytes a = tobytes(c, "d1"), b = tobytes(c, "d2"); if (std::count(a.begin(), a.end(), 0) || std::count(b.begin(), b.end(), 0)) tags.push_back("data-with-NUL"); }
     return tonum(c, "upd") != 0 || (fl & 15);
 }
 
